@@ -99,7 +99,11 @@ class GenCheck:
             except SpecError as ex:
                 out.spec_error = str(ex)
                 return out
-            ok = any(match(a, out.term) for a in alts)
+            # `(v := E) is v` is true whenever it is evaluated: as a conjunct it only binds (the binding is already
+            # resolved in every later read by the term evaluator), so both sides are compared modulo such conjuncts
+            got_n = drop_binds(out.term)
+            alts = [drop_binds(a) for a in alts]
+            ok = any(match(a, got_n) for a in alts)
             detail = ''
             if not ok:
                 # logical fallback: the generated term may be weaker (accept) / stronger (detect)
@@ -115,7 +119,7 @@ class GenCheck:
                              ('accepts at least what the reference accepts' if mode == 'accept'
                               else 'rejects at least what the reference rejects')
                 else:
-                    detail = first_difference(alts[0], out.term)
+                    detail = first_difference(alts[0], got_n)
             if mode == 'accept':
                 out.accept_ok, out.accept_detail = ok, detail
             else:
@@ -127,6 +131,30 @@ class GenCheck:
 
 
 # ---------------------------------------------------------------------------
+def drop_binds(t):
+    """Remove always-true binding conjuncts ``('bind', E)`` from conjunctions (only there: as an
+    operand of ``or`` a binding selects which alternative feeds a later phi and is kept)."""
+    if not isinstance(t, tuple) or not t:
+        return t
+    if t[0] in ('and', 'or', 'or_any', 'not', 'phi'):
+        kids = [drop_binds(x) for x in t[1:]]
+        if t[0] == 'and':
+            kept = [x for x in kids if not (isinstance(x, tuple) and x[:1] == ('bind',))]
+            if not kept:
+                return ('const', True)
+            if len(kept) == 1:
+                return kept[0]
+            flat = []
+            for x in kept:
+                if isinstance(x, tuple) and x[:1] == ('and',):
+                    flat.extend(x[1:])
+                else:
+                    flat.append(x)
+            return ('and',) + tuple(flat)
+        return (t[0],) + tuple(kids)
+    return t
+
+
 def atoms_of(t, acc: list):
     if isinstance(t, tuple) and t and t[0] in ('and', 'or', 'or_any'):
         for x in t[1:]:
